@@ -91,7 +91,7 @@ def base_sig(case):
     return dict(solver=s["name"], datafit=(d["name"] if d else "None") + ("-efron" if d and d.get("use_efron") else ""),
                 penalty=case["penalty"]["name"], storage=case["storage"], ws_strategy=s.get("ws_strategy", s.get("opt_strategy")),
                 fit_intercept=bool(s.get("fit_intercept", False)), warm=case.get("init") is not None,
-                max_iter_zero=(s.get("max_iter") == 0))
+                max_iter_zero=(s.get("max_iter") == 0), unsorted_groups=P.unsorted_groups(case))
 
 
 def classify(case, out):
